@@ -141,11 +141,36 @@ def mk_assume(mode, nloop_hint=None):
     return assume
 
 
+def offered_count(ex, st, nresp):
+    """number of response apps that this path has decided to be offered an update"""
+    pe = [e for e in st.trace if e.kind == 'env' and e.name == 'parse_json_response']
+    if not pe:
+        return None
+    res = Tree({}, pe[0].out, None)
+    resp = payload(ex, st, res, 0, 0, 'protocol::response::Response')
+    appsv = ex.child(st, resp, ex.src.field_index('protocol::response::Response', 'apps'), 'std::vec::Vec<protocol::response::App>')
+    n = 0
+    for j in range(nresp):
+        ra = ex.child(st, appsv, j, 'protocol::response::App')
+        uc = ex.child(st, ra, ex.src.field_index('protocol::response::App', 'update_check'), 'std::option::Option<protocol::response::UpdateCheck>')
+        if dval(ex, st, ex.discr_of(st, uc).t) != 1:
+            continue
+        ucv = payload(ex, st, uc, 1, 0, 'protocol::response::UpdateCheck')
+        sdt = ex.discr_of(st, ex.child(st, ucv, ex.src.field_index('protocol::response::UpdateCheck', 'status'), 'protocol::response::OmahaStatus')).t
+        if dval(ex, st, sdt == 0) == 1:
+            n += 1
+    return n
+
+
 def shape_fn(nresp, nres):
-    def shape(origin, ty):
+    def shape(origin, ty, st=None, ex=None):
         if origin.endswith('.v0.0.3') or 'response::App' in ty:
             return nresp
         if 'AppInstallResult' in ty or origin.endswith('!out.1'):
+            if nres == 'contract' and st is not None:
+                # contract-conforming installer: one result per offered app on this path
+                n = offered_count(ex, st, nresp)
+                return n if n is not None else 0
             return nres
         if 'Event' in ty:
             return 0
@@ -200,8 +225,9 @@ def monitor_attempt_loop(chk, tier):
     o_back = chk.ob('backoff-window', 'before the k-th retry the timer is asked for 2^(k-1) s +/- 500 ms, for every value of the random draw, and the draw matters')
     o_metrics = chk.ob('attempt-metrics', 'RequestsPerCheck.count == attempts made, successful iff an attempt succeeded; one UpdateCheckResponseTime per attempt (monotone clock) with successful == that attempt\'s outcome')
     o_ids = chk.ob('session-and-request-ids', 'every attempt carries the check\'s one session id and a freshly generated request id; same payload')
+    o_ann = chk.ob('loop-error-announced', 'a check whose attempts all failed announces ErrorCheckingForUpdate exactly once (after the last attempt, before the requests-per-check metric), never the server response, and returns Err(OmahaRequest(the last attempt\'s error class)); a successful attempt announces no error state before the body is looked at')
     o_c02 = chk.ob('no-retry-after-forgery', 'an attempt that failed authentication is followed by the response-time metric, ErrorCheckingForUpdate, RequestsPerCheck and Err(OmahaRequest(CupValidation)) - no wait, no second request')
-    Ds = dict((o.name, Decide(chk, ex, o, cross=False)) for o in (o_bound, o_retry, o_back, o_metrics, o_ids, o_c02))
+    Ds = dict((o.name, Decide(chk, ex, o, cross=False)) for o in (o_bound, o_retry, o_back, o_metrics, o_ids, o_c02, o_ann))
     D = Ds['retry-iff-transient']
     spi_path = smodels.sm_field_path(ex, ['context', 'state', 'server_dictated_poll_interval'])
     nforged = 0
@@ -349,6 +375,28 @@ def monitor_attempt_loop(chk, tier):
                 for _, e in attempts[1:]:
                     if not ex.veq(tuple(p0), tuple(o for o in builder_ops(e) if o[0] != 'request_id')):
                         Ds['session-and-request-ids'].failed = Ds['session-and-request-ids'].failed or ('violated', 'payload differs between attempts', None, st)
+        # announcements of the attempt loop
+        DA = Ds['loop-error-announced']
+        ys = [(i, decode_yield(ex, st, e)) for i, e in enumerate(evs) if e.kind == 'yield']
+        ynames = [y[0] + ('(%s)' % y[1] if y[1] else '') for _, y in ys]
+        before_rpc = [y[0] + ('(%s)' % y[1] if y[1] else '') for i, y in ys if i < rpc_i]
+        last_oc_ = omaha_outcome(ex, st, attempts[-1][1]) if attempts else None
+        if last_oc_ is not None and last_oc_[0] == 'Err':
+            if before_rpc != ['StateChange(CheckingForUpdates)', 'StateChange(ErrorCheckingForUpdate)'] or 'OmahaServerResponse' in ynames \
+                    or ynames.count('StateChange(ErrorCheckingForUpdate)') != 1:
+                DA.failed = DA.failed or ('violated', 'after a failed attempt loop (last error %s) the announcements are %s' % (last_oc_[1], ynames), None, st)
+            else:
+                i_err = [i for i, y in ys if y[0] == 'StateChange' and y[1] == 'ErrorCheckingForUpdate'][0]
+                if i_err < attempts[-1][0]:
+                    DA.failed = DA.failed or ('violated', 'ErrorCheckingForUpdate announced before the last attempt', None, st)
+                r_ = st.result
+                uce_ = payload(ex, st, r_, 1, 0, 'state_machine::UpdateCheckError')
+                ore_ = payload(ex, st, uce_, 0, 0, 'state_machine::OmahaRequestError')
+                DA.require(st, z3.And(ex.discr_of(st, r_).t == 1, ex.discr_of(st, uce_).t == 0, ex.discr_of(st, ore_).t == ERRS.index(last_oc_[1])),
+                           'result is Err(OmahaRequest(%s))' % last_oc_[1])
+        elif last_oc_ is not None:
+            if before_rpc != ['StateChange(CheckingForUpdates)']:
+                DA.failed = DA.failed or ('violated', 'a successful attempt loop announced %s before the body was looked at' % before_rpc, None, st)
         # RequestsPerCheck
         mv = decode_metric(ex, st, evs[rpc_i])[1]
         cnt = payload(ex, st, mv, ex.src.variant_index('Metrics', 'RequestsPerCheck'), 0, 'u64')
